@@ -51,6 +51,8 @@ class Backend(object):
         self.on_need = None            # callable(): let the device produce more inbuf
         self.kernel_active = True
         self.gone = False              # the device was unplugged: descriptor reads fail too
+        self.fired = []                # backend call indices at which an injected error was raised
+        self.ndevices = 1              # how many ADB devices hang on the bus (ports [2, 3], [2, 4], ...); they all report the same serial number
 
 
 BACKEND = Backend()
@@ -99,6 +101,7 @@ class Handle(object):
         if e and name in ('bulkRead', 'bulkWrite'):
             if e == 'nodevice':
                 b.gone = True
+            b.fired.append(k)
             raise ERRORS[e]('injected %s at backend call %d' % (e, k))
 
     def kernelDriverActive(self, iface):
@@ -145,6 +148,9 @@ class Handle(object):
 
 
 class Device(object):
+    def __init__(self, port=3):
+        self.port = port
+
     def iterSettings(self):
         return iter([Setting()])
 
@@ -156,7 +162,7 @@ class Device(object):
         return 1
 
     def getPortNumberList(self):
-        return [2, 3]
+        return [2, self.port]
 
     def getSerialNumber(self):
         if BACKEND.gone:
@@ -169,7 +175,7 @@ class USBContext(object):
         return self
 
     def getDeviceIterator(self, skip_on_error=False):
-        return iter([Device()])
+        return iter([Device(3 + i) for i in range(BACKEND.ndevices)])
 
 
 def install():
